@@ -372,6 +372,15 @@ func (d *Data) GetVoxels(v dvid.VersionID, vox *Voxels, roiname dvid.InstanceNam
 	// 	}
 	// }
 
+	// Voxels of blocks that were never written read as the background value, as they do
+	// through GetBlocks; stored blocks overwrite their part of the buffer below.
+	if d.Background != 0 && d.Values.BytesPerElement() == 1 {
+		data := vox.Data()
+		for i := range data {
+			data[i] = byte(d.Background)
+		}
+	}
+
 	for it, err := vox.NewIndexIterator(d.BlockSize()); err == nil && it.Valid(); it.NextSpan() {
 		indexBeg, indexEnd, err := it.IndexSpan()
 		if err != nil {
